@@ -37,3 +37,5 @@ FUNCTIONS = FUNCTIONS + [q for q in KIDS if q not in FUNCTIONS]
 VALIDATION = [validate_bs4, validate_ir]
 
 FUNCTIONS = FUNCTIONS + [q for q in CACHE + LANG + INDET[:2] + DIRFN if q not in FUNCTIONS]
+
+VALIDATION = (globals().get('VALIDATION') or []) + [validate_single]
